@@ -256,11 +256,11 @@ func (g *psGen) litStringText(b []byte) string {
 	var sb strings.Builder
 	sb.WriteByte('(')
 	// balanced parentheses may stay unescaped: only do so when b is balanced
-	bal := balanced(b)
+	rawParens := balanced(b) && t.Bool(1, 2) // all-or-nothing: mixing would unbalance the raw nesting
 	for i, c := range b {
 		switch {
 		case c == '(' || c == ')':
-			if bal && t.Bool(1, 2) {
+			if rawParens {
 				sb.WriteByte(c)
 			} else {
 				sb.WriteByte('\\')
